@@ -728,7 +728,10 @@ func (r *resultBuilder) parseMsg(msg []byte, isUDP bool) (dnsmessage.Header, err
 	case dnsmessage.RCodeFormatError, dnsmessage.RCodeServerFailure,
 		dnsmessage.RCodeNotImplemented, dnsmessage.RCodeRefused:
 		// RFC 9520 resolution failure caching.
-		r.expiresAt = now.Add(rcodeFailureCachingDuration)
+		// Do not extend the expiry set by the other query's answers.
+		if failureExpiresAt := now.Add(rcodeFailureCachingDuration); r.expiresAt.IsZero() || r.expiresAt.After(failureExpiresAt) {
+			r.expiresAt = failureExpiresAt
+		}
 	default:
 		return dnsmessage.Header{}, fmt.Errorf("unknown RCode: %d", header.RCode)
 	}
